@@ -46,7 +46,8 @@ def cases(rng, tier):
 
 ZOO_HEADER = 'import _zoo as _Z\n_ZA = [a for _, a in _Z.annotations()]\n'
 ZOO_POS = {'named': ('p0: _ZA[{i}]', ' -> None'), 'named_dflt': ('p0: _ZA[{i}] = None', ' -> None'), 'star': ('*args: _ZA[{i}]', ' -> None'),
-           'dstar': ('**kwargs: _ZA[{i}]', ' -> None'), 'kwonly': ('*, k0: _ZA[{i}]', ' -> None'), 'ret': ('', ' -> _ZA[{i}]')}
+           'dstar': ('**kwargs: _ZA[{i}]', ' -> None'), 'kwonly': ('*, k0: _ZA[{i}]', ' -> None'), 'ret': ('', ' -> _ZA[{i}]'),
+           'genret': ('', ' -> _ZA[{i}]')}           # the same annotation on a generator function (checked when the generator object is built)
 
 
 def zoo_call_cases(rng, tier):
@@ -58,11 +59,15 @@ def zoo_call_cases(rng, tier):
     defs, twins, meta = [], [], []
     for i, (label, _) in enumerate(anns):
         for pos, (sig, ret) in ZOO_POS.items():
-            if tier == 'quick' and pos in ('named_dflt', 'kwonly') and i % 3:
+            if tier == 'quick' and pos in ('named_dflt', 'kwonly', 'genret') and i % 3 and pos != 'genret':
                 continue
             d = 'async def' if rng.random() < 0.15 else 'def'
             name = f'z{i}_{pos}'
-            body = f'{d} {name}({sig.format(i=i)}){ret.format(i=i)}:\n    return _BODY({i}, locals())\n'
+            if pos == 'genret':
+                d = 'def'
+                body = f'{d} {name}({sig.format(i=i)}){ret.format(i=i)}:\n    yield _BODY({i}, locals())\n'
+            else:
+                body = f'{d} {name}({sig.format(i=i)}){ret.format(i=i)}:\n    return _BODY({i}, locals())\n'
             defs.append('@pedantic\n' + body); twins.append(body)
             meta.append((i, label, pos, name, 'coroutine' if d != 'def' else 'sync', '@pedantic\n' + body, body))
     P = C.OneProgram(ZOO_HEADER + ''.join(defs), ZOO_HEADER + ''.join(twins), f'zoo{rng.randrange(10**9)}')
